@@ -202,9 +202,14 @@ def isWs (c : Char) : Bool :=
   (0x2000 ≤ n && n ≤ 0x200a) || n == 0x2028 || n == 0x2029 || n == 0x202f || n == 0x205f || n == 0x3000
 
 def lstrip (s : Str) : Str := s.dropWhile isWs
-def rstrip (s : Str) : Str := (s.reverse.dropWhile isWs).reverse
+/-- `str.rstrip()`: a character is dropped when it is blank and nothing survives to its right -/
+def rstrip : Str → Str
+  | [] => []
+  | c :: r =>
+    let r' := rstrip r
+    if r'.isEmpty && isWs c then [] else c :: r'
 /-- `str.strip()` -/
-def strip (s : Str) : Str := lstrip (rstrip s)
+def strip (s : Str) : Str := rstrip (lstrip s)
 /-- `x.replace('"', '')` -/
 def unquote (s : Str) : Str := s.filter (fun c => c != '"')
 
@@ -813,15 +818,27 @@ def handleParse (req : Json) : R Json := do
   pure (answer v (sameMapping mres act) (resultToJson (fun m => textMappingToJson (textMapping m)) mres)
     [("guarded", .bool spec.isSome), ("model_holds", .bool mh)])
 
+/-- what a written-and-reloaded file can show: metadata whose entries are all empty reads back absent -/
+def normFile (t : Table Rat) : Table Rat :=
+  let n (md : Option (List Md)) : Option (List Md) :=
+    match md with
+    | some mds => if mds.all (·.isEmpty) then none else some mds
+    | none => none
+  { t with omd := n t.omd, smd := n t.smd }
+
 def handleCli (req : Json) : R Json := do
+  let viaFile ← boolFD req "via_file" false
   let before ← asTable (← fld req "table")
   let c ← asCliOpts (← fld req "opts")
   let sf ← optF asFileReq req "sample"
   let of' ← optF asFileReq req "obs"
   let after ← asTable (← fld req "after")
   let err ← optF asStr req "error"
-  let mres := addMetadataCli before (sf.map (·.lines)) (of'.map (·.lines)) c
-  let obs : Except Err (Table Rat) := match err with | some e => .error (asErr e) | none => .ok after
+  let mres0 := addMetadataCli before (sf.map (·.lines)) (of'.map (·.lines)) c
+  let mres := if viaFile then mres0.map normFile else mres0
+  let obs : Except Err (Table Rat) := match err with
+    | some e => .error (asErr e)
+    | none => .ok (if viaFile then normFile after else after)
   let specS := sf.map (fun f => specOf {} (c.sampleHeader.getD []) (convOfOpts c) f)
   let specO := of'.map (fun f => specOf {} (c.obsHeader.getD []) (convOfOpts c) f)
   let guarded : Bool := (match specS with | some none => false | _ => true) &&
